@@ -579,6 +579,11 @@ class LockAnalysis:
                     if not ok and x[0] == 'next' and param_relative(x[1]):
                         st, ok = need(st, x[1], 'H', n, ctx, 'prev')
                     exc = 'leftmost-unlink'
+                    if not ok and have(st, x, 'H') and ('ROOT',) in held:
+                        # named exception: a held node that is the tree root (root lock held: no sibling exists whose
+                        # lock could protect the field) resets its own prev pointer
+                        ok = True
+                        exc = 'root-reset'
                 elif not ok:
                     st, ok = need(st, q, 'H', n, ctx, 'prev')
                 ev('mutate', n, ctx, cls='prev', token=x, other=q, bad=not ok, callee=cq, exception=exc,
